@@ -23,6 +23,7 @@ func init() {
 			"P7 attachComments allocates nothing sized by the remaining comments; P8 ErrorList.If never returns a slice of its receiver as the list. " +
 			"P9 every strings.Repeat / bytes.Repeat count is a non-negative constant, clamped, guarded, or a difference whose minuend is an unconditional running maximum at every origin; P10 every error returned by the type registration functions is nil or a located wrapError; P11 every successful return of compilePipelineDecs has passed a search for cycles of pipeline calls. " +
 			"P12 the call-mode panic of MergeExp.BindingPath is dominated by the arm for null sources. " +
+			"P13 every insertion into a dependency set of directDepsMap is dominated by a comparison of the two calls. " +
 			"NOT decided: other panics in the compile phase (enumerated as information), index panics in error rendering, time/memory proportionality, errors without a position.",
 		Assumptions: append([]string{"Go's regexp is linear-time (RE2); the goyacc skeleton is trusted"}, commonAssumptions...),
 	}
@@ -183,6 +184,7 @@ func runC08(c *an.Ctx) {
 	ruleP10(c)
 	ruleP11(c)
 	ruleP12(c)
+	ruleP13(c)
 	// information: explicit panics in package syntax outside the parse stage
 	nPanic := 0
 	for _, fn := range p.FuncsOf(pkgSyntax) {
